@@ -18,6 +18,7 @@ ASSUMPTIONS = ['C01 preconditions: accumulators return values of the seed type; 
 SHARD = 150
 COQ_TARGETS = ['theories/Mux/MuxCorr.vo']
 CTYPE = 'muxcase'
+ID_FN = ['id']
 CHECKER = 'mux_check'
 RAISED_IS_FAILURE = True      # see main.safe_oracle
 
@@ -28,6 +29,7 @@ def generate(rng, tier):
     for i in range(n):
         g = muxgen.Gen(rng, plain_ok=True, heads=False, fatal=0.15 if rng.random() < 0.3 else 0.0,
                        max_depth=rng.choice([1, 2, 3]))
+        eqmix = False
         g.no_early = i % 3 == 0      # no take/first: the whole pipeline (tee_map included) is inside the timed plain model
         typ = muxgen.FLT if rng.random() < 0.1 else muxgen.INT
         ast, _ = g.pipe(typ, 0, rng.randint(1, 5))
@@ -74,7 +76,21 @@ def generate(rng, tier):
                   ([['map', ['nth', rng.randint(0, 1)]]] if rng.random() < 0.3 else [])
             typ, none_items = muxgen.INT, False
             trace = muxgen.gen_trace(rng, typ, max_items=rng.choice([None, 5]))
-        kind = 'groupby' if rng.random() < 0.2 else 'keys'
+        if rng.random() < 0.06:
+            # items that are == but not identical (3 / 3.0, 0 / False / 0.0 / -0.0, 1 / True): which OBJECT a group's
+            # result is must not depend on the execution mode
+            ast = [rng.choice([['last'], ['first'], ['duc', None], ['take', 2], ['max', None, 1], ['min', None, 1],
+                               ['max', None, 0], ['identity'], ['filter', ['id']]])] + \
+                  ([rng.choice([['to_list'], ['batch', 2], ['last'], ['first'], ['take', 2], ['identity']])] if rng.random() < 0.5 else []) + \
+                  ([['map', ['pair', ID_FN, ['const', enc('t')]]]] if rng.random() < 0.3 else [])
+            if muxgen.has_take(ast):
+                ast = strip_fallible(ast)
+            typ, none_items = muxgen.INT, False
+            pool = [enc(v) for v in (3, 3.0, 0, False, 0.0, -0.0, 1, True, 1.0, 2, 2.0)]
+            trace = muxgen.gen_trace(rng, typ, max_items=rng.choice([None, 4]))
+            trace = [(['n', e[1], rng.choice(pool)] if e[0] == 'n' else e) for e in trace]
+            eqmix = True
+        kind = 'groupby' if rng.random() < 0.2 and not eqmix else 'keys'
         cases.append({'ast': ast, 'trace': trace, 'kind': kind,
                       'km': ['isnone'] if none_items else (['gt', enc(2.0)] if typ == muxgen.FLT else g.int_key())})
     return cases
